@@ -17,6 +17,23 @@ CLAIMS = {
              "cell is never decremented. Decides the 'no OverflowError, no half-updated call, value pinned' clauses for "
              "all inputs at once; does not decide the lower bound 0 of counting-Bloom cells under over-removal.",
         design_ref="DESIGN.md section 4 C16, section 3 E5"),
+    "C19": dict(
+        technique="interprocedural write-effect (mod-set) analysis per concrete class; clear-vs-mutator field-set comparison",
+        text="Effect proof under stated assumptions: for each of the concrete classes every public query (look-ups, estimates, "
+             "statistics, string conversion, hashes, exports, getters, Bloom set operations) has an empty transitive write effect "
+             "on the receiver, on parameter state and on class state (closed over the resolved call graph incl. function-pointer "
+             "slots); set operations never write the non-receiver operand; clear() writes every field a state mutator writes, with "
+             "the constructor's initial value and arrays over their full range. Structural, near-sufficient: what is trusted is the "
+             "mutability table of builtin containers and the purity contract of user hash callables.",
+        design_ref="DESIGN.md section 4 C19, section 3 E3"),
+    "C20": dict(
+        technique="guard dominance via ordering sets + intervals on every array access; normal-form comparison of address/mask shapes",
+        text="Near-sufficient structural decision: every access to Bitarray's byte array is dominated on every path by a guard whose "
+             "admitted orderings are exactly 0 <= idx < size (rejecting paths raise IndexError before any store; __setitem__ stores "
+             "exactly for val in {0,1}); all accesses agree on byte idx//8 and mask 1<<(idx%8); set is old|m, clear is old&~m, read is "
+             "(old&m)!=0; stored bytes stay in [0,255]; allocation is ceil(size/8) bytes; clear/as_string/num_bits_set cover the full "
+             "range. Does not decide non-integer arguments.",
+        design_ref="DESIGN.md section 4 C20"),
 }
 
 NA_DEFAULT = "check not built yet (build phase in progress; DESIGN.md section 4 gives the planned rule)"
